@@ -25,7 +25,9 @@ func RunDecoy(tb *plugin.Toolbox, p string, req *pluginpb.CodeGeneratorRequest, 
 	if os.Getenv("VERIF_NO_DECOY") != "" {
 		return tb.Run(p, req, opt)
 	}
-	dreq, isDecoy, ok := spec.WithDecoy(req)
+	// the OpenAPI generator names its documents after the bare service name (one flat directory): its decoy
+	// services are renamed; every other generator gets the decoy under the very same service names
+	dreq, isDecoy, ok := spec.WithDecoyX(req, p != "openapiv3")
 	if !ok {
 		return tb.Run(p, req, opt)
 	}
